@@ -25,6 +25,17 @@ abbreviated code) are written independently of pharmpy.
                           (c) the same clauses on $THETA records that mix a repeat `(...)xn` with further thetas
                           (every order, one or two records): identity, and single edits of the thetas written
                           without a repeat and of other components.
+                          (d) edits of the model name, the description and the execution steps on generated $TABLE
+                          layouts (1-3 $TABLE records, kinds of file names, places relative to $ESTIMATION /
+                          $COVARIANCE; items of the last table that are a prefix of a rewritten option or of a dropped
+                          prediction/residual) and on the base models x layout variants: all records of other kinds are
+                          preserved; the number and places of the $TABLE records are unchanged; a rename only changes
+                          the run number of numbered table files; an execution step edit leaves the tables before the
+                          last one alone and keeps every other column, option and comment of the last one; a
+                          description edit only changes the title of $PROBLEM.
+                          (e) the option editing methods of OptionRecord that the regeneration builds on (remove_option,
+                          remove_option_startswith, set_option, replace_option, append_option) on generated record
+                          texts x every key: exactly the addressed options change.
 """
 
 import itertools
@@ -111,6 +122,10 @@ LAYOUT_FLAGS = (
 # (read_model_from_string only detects NONMEM code by an upper case $PRO, so no lower case record names)
 # ('nul_kv' texts are rejected by the parser: no model to speak of)
 MODEL_FLAGS = tuple(f for f in LAYOUT_FLAGS if f not in ('lower_code', 'lower', 'nul_kv'))
+
+# where a $TABLE record of build_records(tables=...) is written: before the $ESTIMATION records, between $ESTIMATION
+# and $COVARIANCE, after $COVARIANCE (the end of the control stream, the place of the default tables)
+TABLE_PLACES = ('pre_est', 'pre_cov', 'end')
 
 
 def _toks(tokens, F, start=0, nonul=False):
@@ -235,9 +250,11 @@ def _pred_body(F):
     return lines
 
 
-def build_records(base, flags, pk_body=None, error_body=None, thetas=None, cov=True, model=False):
+def build_records(base, flags, pk_body=None, error_body=None, thetas=None, cov=True, model=False, tables=None):
     """Returns a list of (kind, first, lines): first is the rest of the record name line,
-    lines are the following lines of the record (without line ends)."""
+    lines are the following lines of the record (without line ends).
+    tables: None for the default $TABLE record(s), else [(place, [items and options])] with place one of TABLE_PLACES:
+    these $TABLE records are written instead, each at its place and in the given order."""
     F = set(flags)
     recs = []
 
@@ -304,18 +321,31 @@ def build_records(base, flags, pk_body=None, error_body=None, thetas=None, cov=T
     option_record('OMEGA', ['0.0309626'], 'IVCL')
     option_record('OMEGA', ['0.031128'], 'IVV', 'omega comment')
     option_record('SIGMA', ['0.013241'], None, 'sigma comment')
+
+    def table_records(place):
+        for i, (where, toks) in enumerate(tables or ()):
+            if where == place:
+                toks = [_opt(*t.split('=', 1), F) if '=' in t else t for t in toks]
+                last = i == len(tables) - 1
+                option_record('TABLE', toks, 'table' if last else 'table %d' % (i + 1), 'table comment' if last else None, i)
+
+    table_records('pre_est')
     if 'multi' in F:
         option_record('ESTIMATION', [_opt('METHOD', '0', F), _opt('MAXEVAL', '0', F)], 'first')
     option_record(
         'ESTIMATION', [_opt('METHOD', '1', F), 'INTERACTION', _opt('MAXEVALS', '9999', F)], 'foce', 'est comment'
     )
+    table_records('pre_cov')
     if cov:
         option_record('COVARIANCE', [], 'cov step')
-    if 'multi' in F:
-        option_record('TABLE', ['ID', 'TIME', 'NOAPPEND', 'NOPRINT', _opt('FILE', 'patab1', F)], 'first table')
-    option_record(
-        'TABLE', ['ID', 'TIME', 'DV', 'NOAPPEND', 'NOPRINT', _opt('FILE', 'sdtab1', F)], 'table', 'table comment'
-    )
+    if tables is not None:
+        table_records('end')
+    else:
+        if 'multi' in F:
+            option_record('TABLE', ['ID', 'TIME', 'NOAPPEND', 'NOPRINT', _opt('FILE', 'patab1', F)], 'first table')
+        option_record(
+            'TABLE', ['ID', 'TIME', 'DV', 'NOAPPEND', 'NOPRINT', _opt('FILE', 'sdtab1', F)], 'table', 'table comment'
+        )
     if 'lower_code' in F:
         recs = [
             (k, f, ls) if k in ('PROBLEM', 'FOO', 'DATA', 'ABBREVIATED') else (k, _lower_nc(f), [_lower_nc(x) for x in ls])
@@ -1217,6 +1247,26 @@ def apply_edit(model, edit):
         return M.remove_parameter_uncertainty_step(model)
     if op == 'rename':
         return M.rename_symbols(model, {edit[1]: edit[1] + 'X'})
+    if op == 'rename_model':
+        return M.set_name(model, edit[1])
+    if op == 'set_description':
+        return M.set_description(model, edit[1])
+    if op == 'set_est_opt':  # one attribute of the first estimation step, same method
+        return M.set_estimation_step(model, model.execution_steps[0].method, idx=0, **{edit[1]: edit[2]})
+    if op == 'eval_step':
+        return M.set_evaluation_step(model, idx=-1)
+    if op == 'append_est_opt':
+        return M.append_estimation_step_options(model, {edit[1]: edit[2]}, idx=0)
+    if op == 'remove_est':
+        return M.remove_estimation_step(model, edit[1])
+    if op == 'add_pred':
+        return M.add_predictions(model, [edit[1]])
+    if op == 'add_res':
+        return M.add_residuals(model, [edit[1]])
+    if op == 'rm_pred':
+        return M.remove_predictions(model, None if edit[1] is None else [edit[1]])
+    if op == 'rm_res':
+        return M.remove_residuals(model, None if edit[1] is None else [edit[1]])
     raise ValueError(op)
 
 
@@ -1227,8 +1277,15 @@ EDIT_LABEL = {
     'modify': 'changing one statement', 'remove': 'removing one statement', 'insert': 'adding one statement',
     'set_est': 'set_estimation_step', 'add_est': 'add_estimation_step', 'add_cov': 'add_parameter_uncertainty_step',
     'remove_cov': 'remove_parameter_uncertainty_step', 'rename': 'rename_symbols of one symbol',
+    'rename_model': 'renaming the model', 'set_description': 'set_description',
+    'set_est_opt': 'set_estimation_step changing one option', 'eval_step': 'set_evaluation_step',
+    'append_est_opt': 'append_estimation_step_options', 'remove_est': 'remove_estimation_step',
+    'add_pred': 'add_predictions', 'add_res': 'add_residuals', 'rm_pred': 'remove_predictions', 'rm_res': 'remove_residuals',
 }
 _EST_KINDS = ('ESTIMATION', 'COVARIANCE', 'TABLE')
+# edits of the execution steps: update_source regenerates $ESTIMATION / $COVARIANCE and the LAST $TABLE record
+EST_EDITS = ('set_est', 'add_est', 'add_cov', 'remove_cov', 'set_est_opt', 'eval_step', 'append_est_opt', 'remove_est',
+             'add_pred', 'add_res', 'rm_pred', 'rm_res')
 EDIT_KINDS = {
     'set_theta': ('THETA',), 'fix_theta': ('THETA',), 'set_omega': ('OMEGA',), 'fix_omega': ('OMEGA',),
     # NOTE an EstimationStep of the model holds the $ESTIMATION options, the parameter uncertainty method ($COVARIANCE)
@@ -1236,9 +1293,16 @@ EDIT_KINDS = {
     # C03 does not demand that they are preserved (demanding it was a false alarm, see DESIGN.md)
     'set_sigma': ('SIGMA',), 'fix_sigma': ('SIGMA',), 'set_est': _EST_KINDS, 'add_est': _EST_KINDS,
     'add_cov': _EST_KINDS, 'remove_cov': _EST_KINDS,
+    'set_est_opt': _EST_KINDS, 'eval_step': _EST_KINDS, 'append_est_opt': _EST_KINDS, 'remove_est': _EST_KINDS,
+    'add_pred': _EST_KINDS, 'add_res': _EST_KINDS, 'rm_pred': _EST_KINDS, 'rm_res': _EST_KINDS,
+    # the run number of the model name is written into the file names of the $TABLE records (sdtab1 -> sdtab2)
+    'rename_model': ('TABLE',), 'set_description': ('PROBLEM',),
 }
 IN_PLACE = ('set_theta', 'fix_theta', 'set_omega', 'fix_omega', 'set_sigma', 'fix_sigma', 'modify', 'remove', 'insert',
-            'set_est', 'rename')
+            'set_est', 'rename', 'rename_model', 'set_description', 'set_est_opt', 'eval_step', 'append_est_opt',
+            'add_pred', 'add_res', 'rm_pred', 'rm_res')
+# edits that may leave the code as it is (a model name without a run number, tables without a numbered file)
+NO_EFFECT_NEEDED = ('rename_model',)
 
 
 def _word_in(word, line):
@@ -1262,6 +1326,152 @@ def _rename_adjacent(old, word):
     return False
 
 
+# ---- reference view of option records ($TABLE, $PROBLEM) for the edits that regenerate them ----------
+
+FID_EST = NM + 'update.py:update_estimation'
+FID_TABNAME = NM + 'update.py:update_name_of_tables'
+FID_DESC = NM + 'update.py:update_description'
+
+# NONMEM's reserved prediction / residual items of $TABLE (NONMEM users guide VIII, $TABLE) and the customary
+# individual ones of $ERROR: the items of a $TABLE record that express the predictions/residuals of the model
+REF_PREDICTIONS = ('PRED', 'IPRED', 'CPRED', 'CPREDI', 'CIPRED', 'CIPREDI', 'NPRED', 'EPRED')
+REF_RESIDUALS = ('RES', 'WRES', 'IRES', 'IWRES', 'CRES', 'CWRES', 'CRESI', 'CWRESI', 'CIRES', 'CIWRES', 'CIRESI',
+                 'CIWRESI', 'NRES', 'NWRES', 'ERES', 'EWRES', 'ECWRES', 'NPDE', 'NPD')
+# options pharmpy keeps at the end of the $TABLE record it regenerates
+TABLE_MOVABLE = ('NOAPPEND', 'NOPRINT', 'ONEHEADER', 'FILE')
+
+
+def ref_option_tokens(chunk):
+    """The items/options of an option record text, in order: comments and the record name dropped, `KEY = VALUE`
+    joined to KEY=VALUE; blanks, tabs, NUL bytes and line ends separate."""
+    body = ' '.join(ln.split(';')[0] for ln in re.split(r'\r?\n', chunk))
+    body = re.sub(r'^[ \t]*\$[A-Za-z]+', '', body)
+    body = re.sub(r'[ \t\x00]*=[ \t\x00]*', '=', body)
+    return [t for t in re.split(r'[ \t\x00\r]+', body) if t]
+
+
+def ref_comments(chunk):
+    return re.findall(r';[^\r\n]*', chunk)
+
+
+def _key(token):
+    return token.split('=')[0]
+
+
+def _is_subsequence(xs, ys):
+    it = iter(ys)
+    return all(any(x == y for y in it) for x in xs)
+
+
+def _multiset_minus(xs, ys):
+    """elements of xs (with multiplicity) that are not matched by an element of ys"""
+    rest = list(ys)
+    out = []
+    for x in xs:
+        if x in rest:
+            rest.remove(x)
+        else:
+            out.append(x)
+    return out
+
+
+def ref_table_file(chunk):
+    """(start, end) of the value of the FILE option (FIL, FILE) in the text of a $TABLE record, None without one"""
+    pos = 0
+    for ln in re.split(r'(\r?\n)', chunk):
+        code = ln.split(';')[0]
+        m = re.search(r'(?<![A-Za-z0-9_])FILE?[ \t\x00]*=[ \t\x00]*([^ \t\x00\r\n]+)', code, re.I)
+        if m:
+            return pos + m.start(1), pos + m.end(1)
+        pos += len(ln)
+    return None
+
+
+_NUMBERED_FILE = re.compile(r"""^(?P<q>['"]?)(?P<dir>(?:.*[/\\])?)(?P<head>[^/\\]*?)(?P<num>\d+)(?P<ext>(?:\.[^./\\]*)?)(?P=q)$""")
+
+
+def table_clauses_est(label, edit, old, new):
+    """The execution steps of a model are written to $ESTIMATION / $COVARIANCE and, for the requested predictions
+    and residuals, to the LAST $TABLE record.  What does not express them is preserved: the other $TABLE records,
+    and in the last one every other column and option (and every comment)."""
+    a = [c for k, c in old if k == 'TABLE']
+    b = [c for k, c in new if k == 'TABLE']
+    if not a:
+        return []
+    if len(a) != len(b):
+        return [(FID_EST, f'after {label}: the number of $TABLE records is unchanged', f'{a!r} -> {b!r}')]
+    fails = []
+    if a[:-1] != b[:-1]:
+        fails.append((FID_EST, f'after {label}: $TABLE records other than the last one are preserved exactly',
+                      f'{a[:-1]!r} -> {b[:-1]!r}'))
+    ot, nt = ref_option_tokens(a[-1]), ref_option_tokens(b[-1])
+    dropped = ()
+    if edit[0] in ('rm_pred', 'rm_res'):
+        dropped = (edit[1],) if edit[1] is not None else REF_PREDICTIONS if edit[0] == 'rm_pred' else REF_RESIDUALS
+    kept = [t for t in ot if _key(t) not in dropped]
+    fixed = [t for t in kept if _key(t) not in TABLE_MOVABLE]
+    lost = _multiset_minus(kept, nt)
+    if lost or not _is_subsequence(fixed, nt):
+        fails.append((FID_EST, f'after {label}: the last $TABLE record keeps every column and option that is not a prediction or '
+                      'residual dropped by the edit (columns and other options in their order; NOAPPEND, NOPRINT, ONEHEADER '
+                      'and FILE may move to the end)',
+                      (f'lost {lost}: ' if lost else 'order changed: ') + f'{a[-1]!r} became {b[-1]!r}'))
+    extra = [t for t in _multiset_minus(nt, ot) if t not in REF_PREDICTIONS + REF_RESIDUALS + ('NOPRINT',)]
+    if extra:
+        fails.append((FID_EST, f'after {label}: nothing is added to the last $TABLE record except predictions, residuals and NOPRINT',
+                      f'added {extra}: {a[-1]!r} became {b[-1]!r}'))
+    if ref_comments(a[-1]) != ref_comments(b[-1]):
+        fails.append((FID_EST, f'after {label}: the comments of the last $TABLE record are preserved exactly and in order',
+                      f'{a[-1]!r} became {b[-1]!r}'))
+    return fails
+
+
+def table_clauses_rename(label, name, old, new):
+    """The run number at the end of the model name is written to the $TABLE file names that end in a run number
+    (sdtab1 -> sdtab2); nothing else expresses the model name."""
+    a = [c for k, c in old if k == 'TABLE']
+    b = [c for k, c in new if k == 'TABLE']
+    if len(a) != len(b):
+        return [(FID_TABNAME, f'after {label}: the number of $TABLE records is unchanged', f'{a!r} -> {b!r}')]
+    m = re.search(r'\d+$', name)
+    fails = []
+    for x, y in zip(a, b):
+        span = ref_table_file(x)
+        fm = _NUMBERED_FILE.match(x[span[0]:span[1]]) if span else None
+        if m is None or fm is None:
+            if x != y:
+                fails.append((FID_TABNAME, f'after {label}: a $TABLE record whose file name does not end in a number, and every '
+                              '$TABLE record when the new model name does not end in a number, is preserved exactly',
+                              f'{x!r} became {y!r}'))
+            continue
+        prefix, suffix = x[:span[0]], x[span[1]:]
+        value = y[len(prefix):len(y) - len(suffix)] if len(y) >= len(prefix) + len(suffix) else None
+        g = fm.groupdict()
+        allowed = {x[span[0]:span[1]]} | {g['q'] + g['dir'] + g['head'] + n + g['ext'] + g['q']
+                                          for n in (m.group(0), str(int(m.group(0))))}
+        if not (y.startswith(prefix) and y.endswith(suffix) and value in allowed):
+            fails.append((FID_TABNAME, f'after {label}: in a $TABLE record only the run number at the end of the file name changes, '
+                          'to the run number of the model name (items, options, comments, layout, directory and extension of '
+                          'the file name are preserved)', f'{x!r} became {y!r}'))
+    return fails[:1] + [f for f in fails[1:] if f[1] != fails[0][1]][:1]
+
+
+def problem_clauses(label, title, old, new):
+    a = [c for k, c in old if k == 'PROBLEM']
+    b = [c for k, c in new if k == 'PROBLEM']
+    if len(a) != 1 or len(b) != 1:
+        return [(FID_DESC, f'after {label}: the number of $PROBLEM records is unchanged', f'{a!r} -> {b!r}')]
+    L, N = a[0].splitlines(keepends=True), b[0].splitlines(keepends=True)
+    head = re.match(r'[ \t]*\$[A-Za-z]+', L[0]).group(0)
+    eol = re.search(r'(\r?\n)?$', L[0]).group(0)
+    ok = (N[1:] == L[1:] and N[0].startswith(head) and N[0].endswith(eol) and not N[0].endswith('\r' + eol)
+          and N[0][len(head):len(N[0]) - len(eol)].strip(' \t') == title)
+    if not ok:
+        return [(FID_DESC, f'after {label}: in the $PROBLEM record only the title changes, to the new description (record name, '
+                 'line end and the following comment lines are preserved)', f'{a[0]!r} became {b[0]!r}')]
+    return []
+
+
 def check_edit(text, edit, info, reread=False, tag=None):
     """Contract of update_source after one edit.  info describes where the edited component lives in
     the generated text: {'code_kind', 'line' / 'lo','hi' / 'symbol', 'rec_ordinal', 'token'}.
@@ -1283,9 +1493,13 @@ def check_edit(text, edit, info, reread=False, tag=None):
         again = updated.update_source().code
         reread_text = read_model_from_string(new_text).update_source().code if reread else new_text
     except Exception as e:
+        if isinstance(e, ValueError) and 'already set by evaluation=True' in str(e):
+            # NOTE pharmpy deliberately refuses to generate code for a step that is an evaluation (MAXEVAL=0) and
+            # is given another maximum number of evaluations: a refusal, outside the precondition of the clauses
+            return []
         return [(FID_UPDATE, C_NOEXC, f'{label}: {type(e).__name__}: {str(e)[:200]!r}')]
     fails = []
-    if new_text == text:
+    if new_text == text and op not in NO_EFFECT_NEEDED:
         fails.append((FID_UPDATE, C_EFFECT, f'{label}: code unchanged'))
     if again != new_text:
         fails.append((FID_UPDATE, C_EDIT_IDEM, f'{label}: ' + _first_diff(new_text, again)))
@@ -1293,6 +1507,9 @@ def check_edit(text, edit, info, reread=False, tag=None):
         fails.append((FID_UPDATE, C_REREAD, f'{label}: ' + _first_diff(new_text, reread_text)))
     old = ref_split(text)
     new = ref_split(new_text)
+    if op == 'rename_model' and any(re.search(r'\.\w+\s*$', c[slice(*ref_table_file(c))]) for k, c in old
+                                    if k == 'TABLE' and ref_table_file(c)):
+        label = 'renaming the model (a $TABLE file name has an extension)'
     related = EDIT_KINDS.get(op) or (info['code_kind'],)
     if op == 'rename' and _rename_adjacent(old, edit[1]):
         label = 'rename_symbols of a symbol used in consecutive statements'
@@ -1348,6 +1565,12 @@ def check_edit(text, edit, info, reread=False, tag=None):
                               '(comments, other values, layout)', f'{a[r]!r} became {b[r]!r}'))
         else:
             fails.append((FID_UPDATE, f'after {label}: the number of ${k} records is unchanged', f'{a!r} -> {b!r}'))
+    if op in EST_EDITS:
+        fails += table_clauses_est(label, edit, old, new)
+    if op == 'rename_model':
+        fails += table_clauses_rename(label, edit[1], old, new)
+    if op == 'set_description':
+        fails += problem_clauses(label, edit[1], old, new)
     if op in ('modify', 'remove', 'insert', 'rename'):
         code_kinds = related
         for k in code_kinds:
@@ -1485,6 +1708,270 @@ def gen_theta_repeat_cases(tier):
                     yield {'base': base, 'flags': list(fl), 'edit': ['fix_sigma', 0], 'thetas': thetas}
 
 
+# ---- (d) $TABLE layouts x model name / execution step edits, description edits ------------------------
+
+# file names of $TABLE records by kind (one name per position of the table in the control stream)
+TABLE_FILE_KINDS = {
+    'num': ('FILE=sdtab1', 'FILE=patab1', 'FILE=cotab1'),  # ends in a run number
+    'plain': ('FILE=simtab', 'FILE=mytab', 'FILE=outtab'),  # no number
+    'ext': ('FILE=sdtab1.tab', 'FILE=patab1.csv', 'FILE=cotab1.tab'),  # run number and extension
+    'none': (None, None, None),  # no FILE option (the table goes to the listing)
+    'dir': ('FILE=tabs/sdtab1', 'FILE=tabs/patab1', 'FILE=tabs/cotab1'),  # in a directory
+    'zero': ('FILE=sdtab01', 'FILE=patab001', 'FILE=cotab0'),  # leading zeros
+    'plainext': ('FILE=sim.tab', 'FILE=my.csv', 'FILE=out.tab'),  # extension, no number
+    'abbr': ('FIL=sdtab1', 'FIL=patab1', 'FIL=cotab1'),  # option name abbreviated
+}
+TABLE_FILE_KINDS_QUICK = ('num', 'plain', 'ext', 'none')
+TABLE_COLUMNS = (['ID', 'TIME', 'DV'], ['ID', 'TIME'], ['ID', 'DV'])
+TABLE_PAIR_PLACES = (('end', 'end'), ('pre_est', 'end'), ('pre_cov', 'end'), ('pre_est', 'pre_cov'))
+MODEL_NAMES = ('run2', 'final', 'run007')  # ends in a run number / does not / number with leading zeros
+TABLE_LAYOUT_FLAGS = ('multiline', 'cmt_after', 'cmt_own', 'eqspace', 'tabsep', 'crlf', 'empty_between', 'abbrev')
+
+
+def _named_table(kind, i, place):
+    f = TABLE_FILE_KINDS[kind][i]
+    return [place, TABLE_COLUMNS[i] + ['NOAPPEND', 'NOPRINT'] + ([f] if f else [])]
+
+
+def gen_table_rename_cases(tier):
+    """model name edits x $TABLE layouts: every kind of file name alone, every ordered pair of kinds x the places of
+    the two tables (adjacent, or separated by $ESTIMATION / $COVARIANCE records), triples of numbered / unnumbered
+    names, and layout variants of the records"""
+    quick = tier == 'quick'
+    kinds = TABLE_FILE_KINDS_QUICK if quick else tuple(TABLE_FILE_KINDS)
+    names = MODEL_NAMES[:2] if quick else MODEL_NAMES
+    for base in (('advan',) if quick else ('advan', 'pred')):
+        for k in TABLE_FILE_KINDS:
+            for name in names:
+                yield {'base': base, 'flags': [], 'edit': ['rename_model', name], 'tables': [_named_table(k, 0, 'end')]}
+        for k1, k2 in itertools.product(kinds, repeat=2):
+            for p1, p2 in TABLE_PAIR_PLACES:
+                for name in names:
+                    yield {'base': base, 'flags': [], 'edit': ['rename_model', name],
+                           'tables': [_named_table(k1, 0, p1), _named_table(k2, 1, p2)]}
+        for ks in itertools.product(('num', 'plain') if quick else TABLE_FILE_KINDS_QUICK, repeat=3):
+            for places in ((('end', 'end', 'end'),) if quick else (('end', 'end', 'end'), ('pre_est', 'pre_cov', 'end'))):
+                yield {'base': base, 'flags': [], 'edit': ['rename_model', names[0]],
+                       'tables': [_named_table(k, i, places[i]) for i, k in enumerate(ks)]}
+        for fl in TABLE_LAYOUT_FLAGS:
+            for k1, k2 in ((('num', 'plain'), ('plain', 'num')) if quick else itertools.product(TABLE_FILE_KINDS_QUICK, repeat=2)):
+                yield {'base': base, 'flags': [fl], 'edit': ['rename_model', names[0]],
+                       'tables': [_named_table(k1, 0, 'end'), _named_table(k2, 1, 'end')]}
+
+
+# items of a $TABLE record that are a proper prefix (shorter than an abbreviation) of an option pharmpy rewrites
+TABLE_PREFIX_ITEMS = (None, 'F', 'FI', 'N', 'NO', 'O', 'ON')
+# predictions / residuals listed in the table (some a prefix of another, C and CW a prefix of all conditional ones)
+TABLE_PRED_SETS = ([], ['IPRED', 'CWRES'], ['CWRES', 'CWRESI', 'IPRED'], ['CIPRED', 'CIPREDI', 'PRED'],
+                   ['CPRED', 'CPREDI', 'CRES', 'CRESI'], ['C', 'CW', 'IPRED', 'CWRESI'])
+# (options before the columns, options after them)
+TABLE_OPTION_LAYOUTS = (
+    ([], ['NOAPPEND', 'NOPRINT', 'ONEHEADER', 'FILE=sdtab1']),
+    ([], ['FILE=sdtab1', 'FORMAT=s1PE12.5', 'NOPRINT']),
+    (['NOPRINT', 'FILE=sdtab1'], ['NOAPPEND']),
+    ([], ['NOAPPEND']),
+)
+
+
+def _est_table(x, preds, optlayout):
+    pre, post = optlayout
+    return list(pre) + ['ID', 'TIME', 'DV'] + ([x] if x else []) + list(preds) + list(post)
+
+
+def _est_edits(tokens, few=False):
+    """execution step edits applicable to a model whose (last) table lists `tokens`"""
+    edits = [['set_est'], ['set_est_opt', 'maximum_evaluations', 100], ['remove_cov'], ['add_res', 'IWRES']]
+    if not few:
+        edits += [['add_est', None], ['eval_step'], ['append_est_opt', 'SADDLE_RESET', 1]]
+    add = next((p for p in ('CIPREDI', 'IPRED') if p not in tokens), None)
+    if add:
+        edits.append(['add_pred', add])
+    # (pharmpy's model knows the predictions / residuals of these two lists)
+    preds = [t for t in tokens if t in ('PRED', 'CPRED', 'CPREDI', 'CIPRED', 'CIPREDI', 'IPRED')]
+    ress = [t for t in tokens if t in ('RES', 'WRES', 'CRES', 'CWRES', 'CRESI', 'CWRESI')]
+    edits += [['rm_pred', p] for p in preds] + [['rm_res', r] for r in ress]
+    if preds:
+        edits.append(['rm_pred', None])
+    if ress:
+        edits.append(['rm_res', None])
+    return edits
+
+
+def gen_table_est_cases(tier):
+    """execution step edits x contents of the last $TABLE record (items that are a prefix of a rewritten option or
+    of a dropped prediction/residual, options before/after the columns), x a further $TABLE record, x layout variants"""
+    quick = tier == 'quick'
+    X, R, O = TABLE_PREFIX_ITEMS, TABLE_PRED_SETS, TABLE_OPTION_LAYOUTS
+    # every (prefix item, option layout) and every (prediction set, option layout) pair, the third one cycling
+    combos = [(x, R[(i + j) % len(R)], o) for i, x in enumerate(X) for j, o in enumerate(O)]
+    combos += [(X[(i + j + 1) % len(X)], r, o) for i, r in enumerate(R) for j, o in enumerate(O)]
+    quick_combos = combos
+    for base in (('advan',) if quick else ('advan', 'pred')):
+        # thorough: every (prefix item, prediction set, option layout) triple on the first base model
+        combos = quick_combos if quick or base == 'pred' else list(itertools.product(X, R, O))
+        seen = []
+        for x, r, o in combos:
+            toks = _est_table(x, r, o)
+            if toks in seen:
+                continue
+            seen.append(toks)
+            for edit in _est_edits(toks, few=quick):
+                yield {'base': base, 'flags': [], 'edit': edit, 'tables': [['end', toks]]}
+        # a further table that is not the last one (it is not rewritten)
+        first = ['ID', 'F', 'NO', 'IPRED', 'CWRESI', 'CWRES', 'NOPRINT', 'ONEHEADER', 'FILE=patab1']
+        # (not between $ESTIMATION and $COVARIANCE: pharmpy writes the $COVARIANCE record, which expresses the edited
+        # execution steps as well, anew behind the last $ESTIMATION record)
+        for place in ('end', 'pre_est'):
+            for toks in (_est_table(None, [], O[0]), _est_table('F', R[2], O[1])):
+                for edit in _est_edits(first + toks, few=quick):
+                    yield {'base': base, 'flags': [], 'edit': edit, 'tables': [[place, first], ['end', toks]]}
+        for fl in TABLE_LAYOUT_FLAGS:
+            for toks in (_est_table('F', R[2], O[0]), _est_table('NO', R[3], O[2])):
+                for edit in (['set_est'], ['rm_pred', 'IPRED' if 'IPRED' in toks else 'PRED'], ['add_res', 'IWRES']):
+                    yield {'base': base, 'flags': [fl], 'edit': edit, 'tables': [['end', toks]]}
+
+
+def gen_attribute_cases(tier):
+    """model name and description edits x layout variants of the base models (default tables)"""
+    quick = tier == 'quick'
+    for base in ('advan', 'pred'):
+        for fl in _flag_sets(MODEL_FLAGS, 1 if quick else 2):
+            for name in MODEL_NAMES[:2]:
+                yield {'base': base, 'flags': list(fl), 'edit': ['rename_model', name]}
+            yield {'base': base, 'flags': list(fl), 'edit': ['set_description', 'another title']}
+            if 'multi' in fl:
+                yield {'base': base, 'flags': list(fl), 'edit': ['remove_est', 0]}
+                yield {'base': base, 'flags': list(fl), 'edit': ['remove_est', 1]}
+            if len(fl) < 2:
+                for edit in (['set_est_opt', 'maximum_evaluations', 100], ['eval_step'], ['append_est_opt', 'SADDLE_RESET', 1],
+                             ['add_pred', 'IPRED'], ['add_res', 'CWRES']):
+                    yield {'base': base, 'flags': list(fl), 'edit': edit}
+
+
+# ---- (e) edits of the options of one record: the methods of OptionRecord that update_source builds on ----
+
+FID_OPTREC = NM + 'records/option_record.py:OptionRecord.'
+O_NOEXC = 'editing the options of a parsed record raises no exception'
+O_FRAME = 'the record the method is called on is left as it is (a new record is returned)'
+_O_REST = ('the other options (also those whose key is a prefix or an extension of it), their order and values, the comments '
+           'and the record name are preserved')
+O_CLAUSES = {
+    'remove_option': 'remove_option(key) removes exactly the options whose key is key; ' + _O_REST,
+    'remove_option_startswith': 'remove_option_startswith(s) removes exactly the options whose key starts with s; ' + _O_REST,
+    'set_option': 'set_option(key, value) gives the first option whose key is key the value, or appends key=value behind the '
+                  'last option when there is none; ' + _O_REST,
+    'replace_option': 'replace_option(old, new) renames exactly the options whose key is old; ' + _O_REST,
+    'append_option': 'append_option(key, value) adds the option behind the last option; ' + _O_REST,
+}
+# per record kind: items / options, among them keys that are a proper prefix of another key of the record
+OPTREC_ALPHABETS = {
+    'TABLE': ('ID', 'F', 'FILE=sdtab1', 'NO', 'NOPRINT', 'CWRES', 'CWRESI', 'FORMAT = s1PE12.5'),
+    'ESTIMATION': ('METHOD=1', 'METH=COND', 'MAXEVAL=9999', 'MAXEVALS = 0', 'INTER', 'INTERACTION', 'PRINT=1', 'M'),
+    'SUBROUTINES': ('ADVAN1', 'ADVAN13', 'TRANS2', 'TRANS', 'TOL=5', 'T', 'ADVAN=ADVAN6', 'TOLC'),
+    'INPUT': ('ID', 'TIME', 'DV', 'D', 'DVX', 'WGT=DROP', 'DV=LNDV', 'TIM'),
+}
+OPTREC_NAMES = {'TABLE': ('$TABLE', '$TAB'), 'ESTIMATION': ('$ESTIMATION', '$EST'), 'SUBROUTINES': ('$SUBROUTINES', '$SUBS'),
+                'INPUT': ('$INPUT', '$INP')}
+# (text between the record name and the first option, separators (cycling), text after the last option)
+OPTREC_LAYOUTS = ((' ', (' ',), '\n'), ('\n  ', (' ; c1\n', '\t', '\n '), ' ; end\n'), ('  ', ('  ', ' ;c\n'), ''))
+OPTREC_NEW = (('NEWOPT', None), ('FILE', 'x1'), ('F', None), ('ADVAN', None), ('MAXEVAL', '5'))
+
+
+def _norm_token(t):
+    return re.sub(r'\s*=\s*', '=', t)
+
+
+def optrec_text(kind, tokens, layout):
+    lead, seps, tail = OPTREC_LAYOUTS[layout]
+    name = OPTREC_NAMES[kind][layout % 2]
+    if not tokens:
+        return name + tail
+    return name + lead + _join_cycle(list(tokens), seps, 0) + tail
+
+
+def optrec_args(kind, method):
+    """the arguments the method is tried with: every key of the alphabet of the record kind, and an absent one"""
+    keys = []
+    for t in OPTREC_ALPHABETS[kind]:
+        if _key(_norm_token(t)) not in keys:
+            keys.append(_key(_norm_token(t)))
+    keys.append('ZZZ')
+    if method == 'remove_option':
+        return [(k,) for k in keys]
+    if method == 'remove_option_startswith':
+        starts = []
+        for k in keys:
+            for st in (k[:1], k[:3], k):
+                if st not in starts:
+                    starts.append(st)
+        return [(st,) for st in starts]
+    if method == 'set_option':
+        return [(k, 'NEWV') for k in keys]
+    if method == 'replace_option':
+        return [(k, 'REPL') for k in keys]
+    return list(OPTREC_NEW)
+
+
+def ref_optrec_result(method, args, tokens):
+    """the options of the record after the method, from the options before (normalised KEY=VALUE strings)"""
+    if method == 'remove_option':
+        return [t for t in tokens if _key(t) != args[0]]
+    if method == 'remove_option_startswith':
+        return [t for t in tokens if not _key(t).startswith(args[0])]
+    if method == 'set_option':
+        i = next((i for i, t in enumerate(tokens) if _key(t) == args[0]), None)
+        new = f'{args[0]}={args[1]}'
+        return tokens + [new] if i is None else tokens[:i] + [new] + tokens[i + 1:]
+    if method == 'replace_option':
+        return [args[1] + t[len(args[0]):] if _key(t) == args[0] else t for t in tokens]
+    return tokens + [args[0] if args[1] is None else f'{args[0]}={args[1]}']
+
+
+def check_optrec(case):
+    """Contract of one method of OptionRecord on one record text, for every argument of optrec_args()."""
+    from pharmpy.model.external.nonmem.records.factory import create_record
+
+    kind, tokens, layout = case['optrec']
+    method = case['method']
+    text = optrec_text(kind, tokens, layout)
+    fid = FID_OPTREC + method
+    try:
+        rec = create_record(text)
+    except Exception as e:
+        return [(FID_CREATE, C_ACCEPT, f'{type(e).__name__}: {str(e)[:160]!r} for record text {text!r}')]
+    toks = [_norm_token(t) for t in tokens]
+    name = re.match(r'\$[A-Za-z]+', text).group(0)
+    fails = {}
+    for args in optrec_args(kind, method):
+        what = f'{method}{args!r} on {text!r}'
+        if method == 'set_option' and next((t for t in toks if _key(t) == args[0]), '=') == args[0]:
+            continue  # precondition: an existing option key has a value that can be replaced (KEY=VALUE)
+        try:
+            out = str(getattr(rec, method)(*args))
+        except Exception as e:
+            fails.setdefault((fid, O_NOEXC), f'{what}: {type(e).__name__}: {str(e)[:160]!r}')
+            continue
+        if str(rec) != text:
+            fails.setdefault((fid, O_FRAME), f'{what}: the record became {str(rec)!r}')
+            rec = create_record(text)
+        want = ref_optrec_result(method, args, toks)
+        got = ref_option_tokens(out)
+        if got != want or ref_comments(out) != ref_comments(text) or re.match(r'\$[A-Za-z]+', out).group(0) != name:
+            fails.setdefault((fid, O_CLAUSES[method]), f'{what}: expected the options {want}, got {got} in {out!r}')
+    return [(f, c, d) for (f, c), d in fails.items()]
+
+
+def gen_optrec_cases(tier):
+    maxlen = 2 if tier == 'quick' else 3
+    for kind, alphabet in OPTREC_ALPHABETS.items():
+        for seq in _seqs(alphabet, maxlen, 0):
+            for layout in range(len(OPTREC_LAYOUTS)):
+                if len(seq) == 3 and layout != (alphabet.index(seq[0]) + alphabet.index(seq[2])) % 3:
+                    continue
+                for method in O_CLAUSES:
+                    yield {'optrec': [kind, list(seq), layout], 'method': method}
+
+
 def us_case_text(case):
     """case -> (text, edit, info)"""
     base = case['base']
@@ -1500,6 +1987,8 @@ def us_case_text(case):
         kw['cov'] = False
     if case.get('thetas') is not None:
         kw['thetas'] = [(list(toks), cmt) for toks, cmt in case['thetas']]
+    if case.get('tables') is not None:
+        kw['tables'] = [(where, list(toks)) for where, toks in case['tables']]
     recs = build_records(base, flags, model=True, **kw)
     text, pre, chunks = render(recs, flags)
     if edit is None:
@@ -1590,11 +2079,23 @@ def code_edits_plain(base):
     ]
 
 
+# the edits of part (d)
+TABLE_FAMILY_EDITS = ('rename_model', 'set_description', 'set_est_opt', 'eval_step', 'append_est_opt', 'remove_est',
+                      'add_pred', 'add_res', 'rm_pred', 'rm_res')
+
+
+def _is_table_family(case):
+    return case.get('tables') is not None or (case['edit'] is not None and case['edit'][0] in TABLE_FAMILY_EDITS)
+
+
 def gen_us_cases(tier):
     for case in _gen_us_cases(tier):
-        if case['edit'] is not None and (tier != 'quick' or (not case['flags'] and case.get('decor') is None)):
+        if case['edit'] is not None and (tier != 'quick' or (not case['flags'] and case.get('decor') is None
+                                                            and case.get('tables') is None)):
             case['reread'] = True
         yield case
+    # (e) edits of the options of single records (no model)
+    yield from gen_optrec_cases(tier)
 
 
 def _gen_us_cases(tier):
@@ -1638,9 +2139,17 @@ def _gen_us_cases(tier):
                             yield {'base': base, 'flags': list(fl), 'edit': edit, 'decor': decor}
     # (c) $THETA records mixing `(...)xn` repeats with further thetas: identity and single edits
     yield from gen_theta_repeat_cases(tier)
+    # (d) $TABLE layouts x model name / execution step edits; name, description and execution step edits x layouts
+    yield from gen_table_rename_cases(tier)
+    yield from gen_table_est_cases(tier)
+    yield from gen_attribute_cases(tier)
 
 
 def _us_worker(case):
+    if 'optrec' in case:
+        res = check_optrec(case)
+        size = len(optrec_text(*case['optrec']))
+        return [(f, c, d + f' [case {case}]', case, size) for f, c, d in res], True
     try:
         text, edit, info = us_case_text(case)
     except Exception as e:  # generator problem: report loudly
@@ -1674,9 +2183,14 @@ def bounded_update_source(tier):
     def order(case):
         return pos[repr(sorted(case.items()))]
 
-    n_rep = sum(1 for c in cases if c.get('thetas') is not None)
-    n_rep_ident = sum(1 for c in cases if c.get('thetas') is not None and c['edit'] is None)
-    n_ident = sum(1 for c in cases if c['edit'] is None) - n_rep_ident
+    n_opt = sum(1 for c in cases if 'optrec' in c)
+    n_opt_rec = len({repr(c['optrec']) for c in cases if 'optrec' in c})
+    cases_d = [c for c in cases if 'optrec' not in c and _is_table_family(c)]
+    cases_abc = [c for c in cases if 'optrec' not in c and not _is_table_family(c)]
+    n_d_tab = sum(1 for c in cases_d if c.get('tables') is not None)
+    n_rep = sum(1 for c in cases_abc if c.get('thetas') is not None)
+    n_rep_ident = sum(1 for c in cases_abc if c.get('thetas') is not None and c['edit'] is None)
+    n_ident = sum(1 for c in cases_abc if c['edit'] is None) - n_rep_ident
     rejected = {}
     ctx = mp.get_context('fork')
     with ctx.Pool(NPROC, initializer=_pool_init) as pool:
@@ -1687,7 +2201,7 @@ def bounded_update_source(tier):
         'cases': len(cases),
         'nontrivial': len(cases) - nrejected,
         'bound': f'{n_ident} unmodified models (2 base models x all subsets of <= {2 if tier == "quick" else 3} of '
-        f'{len(MODEL_FLAGS)} layout variants) + {len(cases) - n_ident - n_rep} single edits: 18 parameter/estimation/covariance '
+        f'{len(MODEL_FLAGS)} layout variants) + {len(cases_abc) - n_ident - n_rep} single edits: 18 parameter/estimation/covariance '
         f'edits (each theta, omega, sigma: set_initial_estimates, fix_parameters; set/add_estimation_step; add/remove '
         f'parameter uncertainty step) and 8-13 statement edits (change/add/remove/rename in $PK, $ERROR, $PRED) x layout '
         f'variant subsets of size <= {1 if tier == "quick" else 2}, and 14 statement edits (change/remove/add/rename at '
@@ -1698,7 +2212,19 @@ def bounded_update_source(tier):
         f'{n_rep_ident} unmodified models (x {3 if tier == "quick" else 12} layout variants) and {n_rep - n_rep_ident} single edits '
         f'(set_initial_estimates / fix_parameters of every theta not written with a repeat, one omega, one statement'
         f'{"" if tier == "quick" else ", estimation step, sigma"}); {nrejected} of these cases use a spelling the parser rejects '
-        f'(outside the precondition)',
+        f'(outside the precondition); + {len(cases_d)} single edits of the model name ({len(MODEL_NAMES[:2] if tier == "quick" else MODEL_NAMES)} '
+        f'names with / without a run number), the description and the execution steps (set_estimation_step method / option, '
+        f'add / remove_estimation_step, set_evaluation_step, append_estimation_step_options, remove_parameter_uncertainty_step, '
+        f'add / remove_predictions, add / remove_residuals): {n_d_tab} on generated $TABLE layouts (1-3 $TABLE records x '
+        f'{len(TABLE_FILE_KINDS_QUICK if tier == "quick" else TABLE_FILE_KINDS)} kinds of file name (all {len(TABLE_FILE_KINDS)} for a '
+        f'single table) x {len(TABLE_PAIR_PLACES)} placements relative to $ESTIMATION / $COVARIANCE; last $TABLE with '
+        f'{len(TABLE_PREFIX_ITEMS) - 1} items that are a prefix of an option x {len(TABLE_PRED_SETS)} sets of predictions/residuals x '
+        f'{len(TABLE_OPTION_LAYOUTS)} option layouts{" (all pairs)" if tier == "quick" else ""}, alone or behind a further $TABLE; x '
+        f'{len(TABLE_LAYOUT_FLAGS)} layout variants for some) and {len(cases_d) - n_d_tab} on the base models x layout variant subsets '
+        f'of size <= {1 if tier == "quick" else 2}; + {n_opt} record level cases: 5 option editing methods of OptionRecord '
+        f'(remove_option, remove_option_startswith, set_option, replace_option, append_option; each with every key of the '
+        f'alphabet and an absent one) x {n_opt_rec} record texts (all sequences of <= {2 if tier == "quick" else 3} of 8 '
+        f'items/options x {len(OPTREC_ALPHABETS)} record kinds x {len(OPTREC_LAYOUTS)} layouts)',
         'samples': [repr(cases[1]), repr(cases[n_ident + 3]), repr(cases[-1])],
         'fails': _fails_list(fails, 'bounded_update_source_replay', also),
     }
